@@ -138,4 +138,79 @@ example : parseInt64Lit (lit "99999999999999999999") = none := by decide
 example : parseInt64Lit (lit "3.0") = none := by decide
 example : parseInt64Lit (lit "-9223372036854775808") = some (-9223372036854775808) := by decide
 
+/-- When `cloopRange` fails it has put an error into `ctx.Err`. -/
+theorem cloopRange_error_sets_err (c : Ctx) (st : Bool) (b : Bytes) (e : Err) (h : (cloopRange c st b).1 = .error e) :
+    ∃ e', (cloopRange c st b).2.err = some e' := by
+  unfold cloopRange at h ⊢
+  by_cases hs : st = true
+  · simp only [hs, if_true] at h ⊢
+    cases hp : parseIntLit b with
+    | some n => simp [hp] at h
+    | none => exact ⟨_, rfl⟩
+  · simp only [hs, Bool.false_eq_true, if_false] at h ⊢
+    cases he : (c.get b).2.err with
+    | some e' => simp only [he]; exact ⟨e', rfl⟩
+    | none =>
+      simp only [he] at h ⊢
+      cases hv : (c.get b).1 with
+      | int n => simp [hv] at h
+      | uint n => simp [hv] at h
+      | bytes t =>
+        simp only [hv] at h ⊢
+        unfold textBound at h ⊢
+        split at h
+        · simp at h
+        · split
+          · rename_i hh; simp [hh] at *
+          · cases hp : parseInt64Lit t with
+            | some n => simp [hp] at h
+            | none => exact ⟨_, rfl⟩
+      | str t =>
+        simp only [hv] at h ⊢
+        unfold textBound at h ⊢
+        split at h
+        · simp at h
+        · split
+          · rename_i hh; simp [hh] at *
+          · cases hp : parseInt64Lit t with
+            | some n => simp [hp] at h
+            | none => exact ⟨_, rfl⟩
+      | _ => exact ⟨_, rfl⟩
+
+/-- **A bad loop bound surfaces as a returned error** (C13, C03): whenever one of the two bounds of a counter loop
+    cannot be determined — a literal that is not an integer, an unset or unreadable variable, text that is not an
+    `int64` — the loop node writes nothing, runs neither body nor else branch, and returns with `ctx.Err` set. -/
+theorem bad_bound_sets_err (c : Ctx) (ls : CLoopSpec) (h : (loopBounds c ls).2 = none) :
+    ∃ e, (loopBounds c ls).1.err = some e := by
+  unfold loopBounds at h ⊢
+  cases h1 : (cloopRange c ls.cntStatic ls.cntInit).1 with
+  | error e =>
+    simp only [h1]
+    exact cloopRange_error_sets_err c _ _ e h1
+  | ok cnt =>
+    simp only [h1] at h ⊢
+    cases h2 : (cloopRange (cloopRange c ls.cntStatic ls.cntInit).2 ls.limStatic ls.lim).1 with
+    | error e =>
+      simp only [h2]
+      exact cloopRange_error_sets_err _ _ _ e h2
+    | ok lim => simp [h2] at h
+
+/-- … and the loop node hands that error to the caller (the render returns it), having written nothing. -/
+theorem bad_bound_is_returned_error (run : St → Res) (runElse : Option (St → Res)) (fuel : Nat) (ls : CLoopSpec) (s : St)
+    (e : Err) (hb : (loopBounds { s.c with brkD := 0 } ls).2 = none)
+    (he : (loopBounds { s.c with brkD := 0 } ls).1.err = some e) (hs : isSentinel e = false) :
+    (loopNode (cloopWith run runElse fuel ls) s).err = some e ∧
+    (loopNode (cloopWith run runElse fuel ls) s).st.w = s.w := by
+  unfold loopNode cloopWith cloopAfter
+  simp only [hb, ok]
+  simp only [he, loopErrRes, hs, fail]
+  exact ⟨rfl, rfl⟩
+
+/-! Non-vacuity: `{% for i := 0; i < n; i++ %}` with `n` = the text `99999999999999999999` (bytes variable). -/
+def cBad : Ctx := ({} : Ctx).setBytes (lit "n") (lit "99999999999999999999")
+def lsN : CLoopSpec := ⟨lit "i", lit "0", true, .inc, .lt, lit "n", false, []⟩
+example : (loopBounds cBad lsN).2 = none := by decide
+example : (loopBounds cBad lsN).1.err = some .wrongLoopLim := by decide
+example : (loopBounds (({} : Ctx).setBytes (lit "n") (lit "3")) lsN).2 = some (0, 3) := by decide
+
 end DyntplV.C03N
